@@ -135,15 +135,57 @@ Theorem C05_projection_sequence_norm :
 Proof. exact projection_sequence_norm. Qed.
 Print Assumptions C05_projection_sequence_norm.
 
-(* PARTIAL.  Full statement of the property's two inequalities (D k = discarded weight of the ORIGINAL
-   state psi 0 at the bond cut in step k, with the kept count of step k):
-       forall k < n,  D k  <=  |psi 0 - psi n|^2            (Eckart-Young)           -- NOT proved
-       |psi 0 - psi n|^2  <=  sum_{k<n} D k                 (needs |d_k|^2 <= D k)   -- proved GIVEN that
-   Proved: the upper bound under the per-step interlacing hypothesis, and the lower bound with the step
-   discards |d_k|^2 in place of D k.  The spectral facts themselves (interlacing of singular values under
-   a one-sided contraction; Eckart-Young) are not proved: no SVD theory is available.  They are checked
-   numerically on the real code by the dense oracle of harness/c05.py on every run. *)
+(* PARTIAL -- both inequalities of the property, derived from ONE named fact of linear algebra that is NOT
+   proved here: Ky Fan's maximum principle (Base/Inner.v: ky_fan_principle; K. Fan, PNAS 35 (1949) 652;
+   Bhatia, Matrix Analysis, Problem I.6.15 / Ex. II.1.13; Horn & Johnson 2nd ed. Cor. 4.3.39):
+       top k v  :=  sum of the m_k largest squared Schmidt values of v at the bond cut in step k
+                =  max |X v|^2 over orthogonal projectors X of rank <= m_k acting on one side of that bond,
+                   attained by a right-acting one.
+   discarded_weight (top k) v = |v|^2 - top k v  is the discarded weight D_k(v).  Conclusion (chains):
+       forall k < n,  D_k(psi_0)  <=  |psi_0 - psi_n|^2  <=  sum_{k<n} D_k(psi_0).
+   The other hypotheses carry no spectral content: the step projectors are additive orthogonal projectors, nested
+   (C05_decreasing_projectors_nested), members of the class at their own bond, keep the top-m weight (SVD contract:
+   truncation keeps the m largest singular values -- C05_kept_are_largest), and earlier (left-block) projectors
+   commute with right-acting projectors of later bonds (disjoint tensor factors).
+   What remains unproved: Ky Fan's principle itself, and that a concrete tensor-product space satisfies
+   projector_class / Hcomm (standard).  Checked numerically on the real code on every run. *)
 Theorem C05_bounds_partial :
+  forall (R : OrdRing) (E : InnerSpace R) (P : nat -> E -> E) (psi : nat -> E) (n : nat)
+         (side right : nat -> (E -> E) -> Prop) (top : nat -> E -> R),
+    (forall k, (k < n)%nat -> orth_projector E (P k) /\ additive E (P k)) ->
+    (forall k, (k < n)%nat -> psi (S k) = P k (psi k)) ->
+    (forall j k, (j < k)%nat -> (k <= n)%nat -> P j (psi k) = psi k) ->
+    (forall k, (k < n)%nat -> projector_class E (side k) (right k)) ->
+    (forall k, (k < n)%nat -> ky_fan_principle E (side k) (right k) (top k)) ->      (* <-- the spectral hypothesis *)
+    (forall k, (k < n)%nat -> side k (P k)) ->
+    (forall k, (k < n)%nat -> normsq E (psi (S k)) = top k (psi k)) ->
+    (forall j k, (j < k)%nat -> (k < n)%nat -> forall Q w, right k Q -> P j (Q w) = Q (P j w)) ->
+    kle R (normsq E (vsub E (psi 0%nat) (psi n))) (ksum_upto (fun k => discarded_weight R E (top k) (psi 0%nat)) n)
+    /\ (forall k, (k < n)%nat ->
+          kle R (discarded_weight R E (top k) (psi 0%nat)) (normsq E (vsub E (psi 0%nat) (psi n)))).
+Proof. exact bounds_from_ky_fan. Qed.
+Print Assumptions C05_bounds_partial.
+
+(* the two one-bond consequences of Ky Fan's principle used above *)
+(* "interlacing" in the form needed: a projector on the other tensor factor does not increase the discarded weight *)
+Theorem C05_left_projection_discard_partial :
+  forall (R : OrdRing) (E : InnerSpace R) (side right : (E -> E) -> Prop) (top : E -> R),
+    projector_class E side right -> ky_fan_principle E side right top ->
+    forall P v, orth_projector E P -> additive E P -> (forall Q w, right Q -> P (Q w) = Q (P w)) ->
+      kle R (discarded_weight R E top (P v)) (discarded_weight R E top v).
+Proof. exact left_projection_discard. Qed.
+Print Assumptions C05_left_projection_discard_partial.
+
+(* Eckart-Young in the form needed: anything fixed by a rank-<=m one-sided projector is at least D(v) away from v *)
+Theorem C05_eckart_young_partial :
+  forall (R : OrdRing) (E : InnerSpace R) (side right : (E -> E) -> Prop) (top : E -> R),
+    projector_class E side right -> ky_fan_principle E side right top ->
+    forall X v w, side X -> X w = w -> kle R (discarded_weight R E top v) (normsq E (vsub E v w)).
+Proof. exact eckart_young_member. Qed.
+Print Assumptions C05_eckart_young_partial.
+
+(* older, weaker form kept: upper bound given per-step interlacing as the hypothesis, lower bound with step discards *)
+Theorem C05_bounds_given_step_interlacing :
   forall (R : OrdRing) (E : InnerSpace R) (P : nat -> E -> E) (psi : nat -> E) (n : nat) (D : nat -> R),
     (forall k, (k < n)%nat -> self_adjoint E (P k)) ->
     (forall k, (k < n)%nat -> psi (S k) = P k (psi k)) ->
@@ -153,51 +195,63 @@ Theorem C05_bounds_partial :
     /\ (forall k, (k < n)%nat ->
           kle R (normsq E (vsub E (psi k) (psi (S k)))) (normsq E (vsub E (psi 0%nat) (psi n)))).
 Proof. exact bounds_partial. Qed.
-Print Assumptions C05_bounds_partial.
+Print Assumptions C05_bounds_given_step_interlacing.
 
 (* ------------------------------------------------------------------ C. dimensions after compress *)
-(* chains: every interior bond is cut exactly once, by the step whose rule call used that bond's limit *)
-Theorem C05_chain_cut_once : forall mt spectrum n to_right dims0, length dims0 = S n ->
+(* All definitions below (compress_idx_list, update_ms_bond, compress_m_trunc, compress_step_dim, compress_dims,
+   compress_max_dims, compress_node_m_trunc, compress_node_dim, tree_compress_events, tree_compress_dims) are
+   GENERATED from mps/mp.py (iter_idx_list, compress, _update_ms), tn/tree.py (TTNS.compress, compress_node,
+   compress_recursion) and utils/configs.py (bonddim_should_set, set_bonddim).  temp = the temp_m_trunc argument. *)
+
+(* chains: every interior bond is cut exactly once by the generated schedule and receives min(kept count, len) *)
+Theorem C05_chain_cut_once : forall cc n to_right temp spectrum dims0, length dims0 = S n ->
   forall b, (1 <= b <= n - 1)%nat ->
-    exists idx, In idx (iter_idx_list n to_right) /\ cut_bond idx to_right = Z.of_nat b /\
-      nth b (sweep_dims mt spectrum to_right (iter_idx_list n to_right) dims0) 0
-        = Z.min (mt (spectrum idx) idx to_right) (py_len (spectrum idx)).
-Proof. exact chain_dims_after_compress_gen. Qed.
+    exists idx, In idx (compress_idx_list (Z.of_nat n) to_right) /\ update_ms_bond idx to_right = Z.of_nat b /\
+      nth b (compress_dims cc (Z.of_nat n) to_right temp spectrum dims0) 0
+        = compress_step_dim cc to_right temp (spectrum idx) idx.
+Proof. exact gen_chain_cut_once. Qed.
 Print Assumptions C05_chain_cut_once.
 
-Theorem C05_chain_dims_after_compress : forall self spectrum n to_right dims0, length dims0 = S n ->
-  cfg_criteria self <> Threshold ->
+(* ... and obeys ITS OWN limit, in both sweep directions, for every way of giving the limit: the config's per-bond
+   list (criterion fixed/both), a temp_m_trunc list, a temp_m_trunc integer *)
+Theorem C05_chain_dims_after_compress : forall cc n to_right temp spectrum dims0, length dims0 = S n ->
   forall b, (1 <= b <= n - 1)%nat ->
-    nth b (sweep_dims (compute_m_trunc self) spectrum to_right (iter_idx_list n to_right) dims0) 0
-      <= py_index (cfg_max_dims self) (Z.of_nat b).
-Proof. exact chain_dims_after_compress. Qed.
+    let d := nth b (compress_dims cc (Z.of_nat n) to_right temp spectrum dims0) 0 in
+    match temp with
+    | TNone => cfg_criteria cc <> Threshold -> d <= py_index (cfg_max_dims cc) (Z.of_nat b)
+    | TInt v => d <= v
+    | TList l => d <= py_index l (Z.of_nat b)
+    end.
+Proof. exact gen_chain_dims_after_compress. Qed.
 Print Assumptions C05_chain_dims_after_compress.
 
-Theorem C05_chain_dims_global_M : forall crit thr M spectrum n to_right dims0, length dims0 = S n ->
+(* global limit M: CompressConfig(criteria, max_bonddim=M) without a per-bond list (compress() calls set_bonddim) *)
+Theorem C05_chain_dims_global_M : forall crit thr M n to_right spectrum dims0, length dims0 = S n ->
   crit <> Threshold ->
   forall b, (1 <= b <= n - 1)%nat ->
-    nth b (sweep_dims (compute_m_trunc (mk_config crit thr (set_bonddim None M (S n)))) spectrum to_right
-                      (iter_idx_list n to_right) dims0) 0 <= M.
-Proof. exact chain_dims_global_M. Qed.
+    nth b (compress_dims (mk_config crit thr (compress_max_dims crit None M (Z.of_nat n))) (Z.of_nat n) to_right TNone
+                         spectrum dims0) 0 <= M.
+Proof. exact gen_chain_dims_global_M. Qed.
 Print Assumptions C05_chain_dims_global_M.
 
-(* trees: compress_recursion truncates the bond above every non-root node exactly once (pre-order) *)
+(* trees: the generated traversal truncates the bond above every non-root node exactly once (pre-order) *)
 Theorem C05_tree_visits_each_bond_once : forall t, NoDup (preorder t) ->
-  truncated_children (compress_recursion t) = tl (preorder t) /\
-  NoDup (truncated_children (compress_recursion t)).
-Proof.
-  exact (fun t H => conj (compress_recursion_visits t) (proj1 (tree_exactly_once t H))).
-Qed.
+  truncated_children (tree_compress_events t) = tl (preorder t) /\
+  NoDup (truncated_children (tree_compress_events t)).
+Proof. exact gen_tree_visits. Qed.
 Print Assumptions C05_tree_visits_each_bond_once.
 
-Theorem C05_tree_dims_after_compress : forall self spectrum qr_dim, (forall c d, qr_dim c d <= d) ->
+(* ... and its final dimension is at most the kept count selected for it (idx = its node index) and obeys its own limit *)
+Theorem C05_tree_dims_after_compress : forall cc temp spectrum qr_dim, (forall c d, qr_dim c d <= d) ->
   forall t dims0 c, In c (tl (preorder t)) ->
-    tree_dims (compute_m_trunc self) spectrum qr_dim (compress_recursion t) dims0 c
-      <= Z.min (compute_m_trunc self (spectrum c) (Z.of_nat c) false) (py_len (spectrum c))
-    /\ (cfg_criteria self <> Threshold ->
-        tree_dims (compute_m_trunc self) spectrum qr_dim (compress_recursion t) dims0 c
-          <= py_index (cfg_max_dims self) (Z.of_nat c)).
-Proof. exact tree_dims_after_compress. Qed.
+    let d := tree_compress_dims cc temp spectrum qr_dim t dims0 c in
+    d <= compress_node_dim cc temp (spectrum c) (Z.of_nat c) /\
+    match temp with
+    | TNone => cfg_criteria cc <> Threshold -> d <= py_index (cfg_max_dims cc) (Z.of_nat c)
+    | TInt v => d <= v
+    | TList l => d <= py_index l (Z.of_nat c)
+    end.
+Proof. exact gen_tree_dims_after_compress. Qed.
 Print Assumptions C05_tree_dims_after_compress.
 
 (* ------------------------------------------------------------------ documented refutations *)
@@ -277,6 +331,41 @@ Qed.
 (* a branching tree with depth two: 0 -> (1 -> (3, 4), 2) *)
 Example ex_tree :
   let t := Node 0 [Node 1 [Node 3 []; Node 4 []]; Node 2 []] in
-  compress_recursion t = [EvTrunc 0 1 true; EvTrunc 1 3 false; EvTrunc 1 4 false; EvPush 1; EvTrunc 0 2 false]
-  /\ preorder t = [0; 1; 3; 4; 2]%nat /\ iter_idx_list 4 true = [0; 1; 2] /\ iter_idx_list 4 false = [3; 2; 1].
+  tree_compress_events t = [EvTrunc 0 1 true; EvTrunc 1 3 false; EvTrunc 1 4 false; EvPush 1; EvTrunc 0 2 false]
+  /\ preorder t = [0; 1; 3; 4; 2]%nat /\ compress_idx_list 4 true = [0; 1; 2] /\ compress_idx_list 4 false = [3; 2; 1]
+  /\ compress_trace (mk_config Fixed (1 # 2) [1; 2; 3; 4; 1]) 4 false (TList [1; 5; 6; 7; 1]) (fun _ => [1; 1; 1; 1; 1; 1; 1; 1]%Q)
+     = [3; 3; 7; 2; 2; 6; 1; 1; 5].
 Proof. vm_compute. repeat split; reflexivity. Qed.
+
+(* the hypotheses of C05_bounds_partial are satisfiable (same two-step sweep in Z^3; the classes are small but the
+   sweep really discards weight: D_0 = 144, D_1 = 16 + 144, 160 lies in [160, 304]) *)
+Definition exSide (k : nat) (X : Z3 -> Z3) : Prop := match k with O => X = exP 0 \/ X = exP 1 | _ => X = exP 1 end.
+Definition exRight (k : nat) (X : Z3 -> Z3) : Prop := match k with O => X = exP 0 | _ => X = exP 1 end.
+Definition exTop (k : nat) (v : Z3) : Z := dot3 (exP k v) (exP k v).
+Example ex_ky_fan_hypotheses :
+  (forall k, (k < 2)%nat -> orth_projector Z3Space (exP k) /\ additive Z3Space (exP k)) /\
+  (forall k, (k < 2)%nat -> projector_class Z3Space (exSide k) (exRight k)) /\
+  (forall k, (k < 2)%nat -> ky_fan_principle Z3Space (exSide k) (exRight k) (exTop k)) /\
+  (forall k, (k < 2)%nat -> exSide k (exP k)) /\
+  (forall k, (k < 2)%nat -> normsq Z3Space (exPsi (S k)) = exTop k (exPsi k)) /\
+  (forall j k, (j < k)%nat -> (k < 2)%nat -> forall Q w, exRight k Q -> exP j (Q w) = Q (exP j w)) /\
+  discarded_weight ZOrd Z3Space (exTop 0%nat) (exPsi 0%nat) = 144 /\ discarded_weight ZOrd Z3Space (exTop 1%nat) (exPsi 0%nat) = 160.
+Proof.
+  assert (forall k, orth_projector Z3Space (exP k) /\ additive Z3Space (exP k)) as OP.
+  { intro k. split; [split|].
+    - intros [[a b] c]. destruct k; reflexivity.
+    - intros [[a b] c] [[x y] z]. destruct k; cbn; ring.
+    - intros [[a b] c] [[x y] z]. destruct k; cbn; f_equal; try f_equal; ring. }
+  split; [intros; apply OP|]. split.
+  { intros k Hk. split.
+    - intros X HX. destruct k as [|[|k]]; cbn in *; [left; exact HX|exact HX|lia].
+    - intros X HX. destruct k as [|[|k]]; cbn in HX; [destruct HX as [->| ->]| subst X|lia]; apply OP. }
+  split.
+  { intros k Hk. split.
+    - intros X [[a b] c] HX. destruct k as [|[|k]]; cbn in HX; [destruct HX as [->| ->]| subst X|lia]; cbn; nia.
+    - intros v. exists (exP k). split; [destruct k as [|[|k]]; cbn; try reflexivity; lia|reflexivity]. }
+  split; [intros k Hk; destruct k as [|[|k]]; cbn; [left; reflexivity|reflexivity|lia]|].
+  split; [intros k Hk; destruct k as [|[|k]]; [reflexivity|reflexivity|lia]|].
+  split; [|split; reflexivity].
+  intros j k H1 H2 Q [[a b] c] HQ. destruct j as [|j], k as [|[|k]]; try lia. cbn in HQ. subst Q. reflexivity.
+Qed.
